@@ -31,6 +31,7 @@ type PathSpec struct {
 	Pass       *string `json:"pass,omitempty"`
 	Cert       int    `json:"cert"`
 	ProxyReply string `json:"proxy_reply,omitempty"`
+	HostHeader string `json:"host_header,omitempty"` // caller-supplied Host request header: must not influence the dial plan or the TLS name
 	// C16
 	Timeout    bool `json:"timeout,omitempty"`
 	FailAt     int  `json:"fail_at"`
@@ -142,7 +143,11 @@ func pathExec(s core.Spec) core.Exec {
 				err = errOther
 			}
 		}()
-		c, _, err = d.Dial(u, nil)
+		var hdr http.Header
+		if sp.HostHeader != "" {
+			hdr = http.Header{"Host": {sp.HostHeader}}
+		}
+		c, _, err = d.Dial(u, hdr)
 	}()
 	hung := false
 	select {
@@ -259,7 +264,7 @@ func c18Gen(rng *rand.Rand, tier string) []core.Spec {
 								case 1:
 									sp.User = strp("user")
 								case 2:
-									sp.User, sp.Pass = strp("user"), strp(core.Pick(rng, []string{"pw", "", "p:w"}))
+									sp.User, sp.Pass = strp(core.Pick(rng, []string{"user", "us@er", "u%20r"})), strp(core.Pick(rng, []string{"pw", "", "p:w", "p@ss/w%rd", "p w"}))
 								}
 								if proxy != "socks5" && rng.Intn(8) == 0 {
 									sp.ProxyReply = core.Pick(rng, []string{"HTTP/1.1 407 Proxy Authentication Required", "HTTP/1.1 407", "HTTP/1.1 502 Bad Gateway", "HTTP/1.1 201 Created"})
@@ -267,6 +272,9 @@ func c18Gen(rng *rand.Rand, tier string) []core.Spec {
 							}
 							if wss && rng.Intn(6) == 0 {
 								sp.ServerName = "alias.test"
+							}
+							if rng.Intn(3) == 0 {
+								sp.HostHeader = core.Pick(rng, []string{"other.test", "other.test:443", "proxy.test"})
 							}
 							out = append(out, sp)
 						}
@@ -526,6 +534,9 @@ func init() {
 		Clauses: map[int]string{
 			160: "Dial succeeded over TLS although the backend's certificate is not valid for the URL's host",
 			161: "Dial succeeded although the proxy refused the CONNECT",
+			162: "the Proxy-Authorization sent with CONNECT is not Basic base64(user:password) of the configured (decoded) credentials, or credentials were sent although none/only a user name was configured",
+			163: "the TLS session that reached the backend through the proxy was not opened for the URL's host (or TLSClientConfig.ServerName)",
+			164: "a ws:// connection through a proxy was wrapped in TLS towards the backend",
 		},
 	})
 	core.Register(&core.Prop{
